@@ -692,12 +692,51 @@ def c17(tier):
     return out
 
 
+def csdo_inst(kind, dirn=0, size=4, beh=0, j=0, follow=1):
+    defs = dict(NODE_DEFS)
+    defs.update({'KIND': kind, 'DIRN': dirn, 'SIZE': size, 'BEH': beh, 'J': j, 'FOLLOW': follow, 'CO_VERIF_SDO_BUF_SEG': 2, 'OD_TMR_N': 3})
+    uw = node_unwind(2)
+    uw.update(lss_unwind())
+    uw.update({'COSyncInit': 4, 'COTmrClear': 4, 'COEmcyReset': 6, 'COTmrDelete': 4, 'COTmrInsert': 4, 'COTmrRemove': 5, 'COTmrProcess': 4, 'COTmrReset': 4, 'CoVerifTmrPool': 4,
+               'free_actions': 5, 'COCSdoInit': 3, 'COCSdoCheck': 3, 'COCSdoUploadExpedited': 6, 'COCSdoUploadSegmented': 9, 'COCSdoInitDownloadSegmented': 9,
+               'COCSdoDownloadSegmented': 9, 'COCSdoRequestDownload': 6})
+    behs = ['conforming', 'abort at step %d' % j, 'silent from step %d' % j, 'unknown command at step %d' % j, 'wrong toggle at step %d' % j, 'oversized / foreign answer']
+    if kind == 1:
+        return Inst('csdo_step', 'csdo_e2e.c', defs, unwind=602, unwindset=uw, objbits=10, csdo_cbs=['cb'], harness_only=['KIND', 'DIRN', 'SIZE', 'BEH', 'J', 'FOLLOW'],
+                    family='csdo_e2e', bounds='segmented download context with 32-bit symbolic Size (5..600) and Buf_Idx, one segment confirmation')
+    return Inst('csdo_%s_s%d_b%d_j%d%s' % ('dn' if dirn else 'up', size, beh, j, '' if follow else '_nf'), 'csdo_e2e.c', defs, unwind=max(size + 20, 24), unwindset=uw,
+                objbits=10, csdo_cbs=['cb'], harness_only=['KIND', 'DIRN', 'SIZE', 'BEH', 'J', 'FOLLOW'], family='csdo_e2e',
+                bounds='%s of %d bytes (payload symbolic), server %s, time-out %d ticks; followed by a second transfer with a longer time-out' % (
+                    'download' if dirn else 'upload', size, behs[beh], 3))
+
+
+def c19(tier):
+    out = [csdo_inst(1)]
+    sizes = (1, 3, 4, 5, 7, 8, 14, 15) if tier == 'quick' else (1, 2, 3, 4, 5, 6, 7, 8, 13, 14, 15, 21, 22, 28)
+    for d in (0, 1):
+        for sz in sizes:
+            out.append(csdo_inst(0, d, sz, 0))
+            steps = 1 if sz <= 4 else (sz + 6) // 7 + 1
+            for beh in (1, 2, 3, 4, 5):
+                js = range(steps) if tier != 'quick' else sorted(set([0, steps - 1]))
+                for j in js:
+                    if beh == 4 and (sz <= 4 or j == 0):
+                        continue
+                    if beh == 5 and j != 0:
+                        continue
+                    if tier == 'quick' and sz not in (3, 4, 8, 15):
+                        continue
+                    out.append(csdo_inst(0, d, sz, beh, j))
+    return out
+
+
 def c01(tier):
     return sdo_step_insts(tier) + sdo_two_servers(tier)
 
 
 PROPS = {
     'C01': c01,
+    'C19': c19,
     'C17': c17,
     'C12': c12,
     'C14': c14,
